@@ -663,7 +663,7 @@ def weave_fn(w, item_id, text, spec, log):
         if p.get('unique', True) and 'nth' not in p and len(idxs) != 1:
             raise Undecided('%s: proof anchor %r is ambiguous (%d matches)' % (item_id, anchor, len(idxs)))
         at = idxs[nth - 1] + (len(anchor) if 'after' in p else 0)
-        c = Clause(p.get('label', 'proof'), p['text'] if p.get('label') else '', props, 'proof')
+        c = Clause(p.get('label', 'proof'), p['text'] if p.get('label') else '', p.get('props', props), 'proof')
         if p.get('ghost'):
             block = ' ' + w.mark(item_id, c) + ' ' + p['text'].strip() + ' '
         else:
@@ -1023,8 +1023,11 @@ def build_unit(unit, repo, variant=None):
     g.unit = unit
     # line maps
     g.mark_lines = {}
-    for m in re.finditer(r'/\*@(\d+)@\*/', text):
-        g.mark_lines[int(m.group(1))] = text.count('\n', 0, m.start()) + 1
+    g.mark_offsets = {}
+    btext = text.encode('utf-8')
+    for m in re.finditer(rb'/\*@(\d+)@\*/', btext):
+        g.mark_lines[int(m.group(1))] = btext.count(b'\n', 0, m.start()) + 1
+        g.mark_offsets[int(m.group(1))] = m.start()
     g.item_ranges = {}
     for m in re.finditer(r'/\*@ITEM_BEGIN (.*?)@\*/', text):
         name = m.group(1)
